@@ -25,8 +25,13 @@ def _is_concrete_int(x):
     return isinstance(x, int) and not isinstance(x, bool)
 
 
+_STAMP = [0]
+
+
 class SArr:
     def __init__(self, shape, fn, dtype="real", base=None, inv=None, fwd=None):
+        _STAMP[0] += 1
+        self.stamp = _STAMP[0] if base is None else base.stamp
         self.shape = tuple(shape)
         self._fn = fn
         self.dtype = dtype          # 'int' | 'real' | 'bool' | 'complex'
@@ -204,6 +209,10 @@ def from_nested(obj, dtype=None):
             return SArr(arr.shape, lambda idx, a=arr: a[tuple(int(i) for i in idx)].item(), dtype or k)
     except ImportError:  # pragma: no cover
         pass
+    if type(obj).__name__ == "SList":
+        f = obj.fn
+        probe = f(0) if isinstance(obj.n, int) and obj.n > 0 else None
+        return SArr((obj.n,), lambda idx: f(idx[0]), dtype or "real")
     if isinstance(obj, (list, tuple)):
         items = [from_nested(o) for o in obj]
         n = len(items)
